@@ -397,7 +397,9 @@ func walkFrom(from ssa.Instruction, inclusive bool, stop func(ssa.Instruction) b
 func (w *walk) witness(P *Prog, to ssa.Instruction) string {
 	var lines []string
 	last := ""
-	for in := to; in != nil; in = w.parent[in] {
+	visited := map[ssa.Instruction]bool{}
+	for in := to; in != nil && !visited[in]; in = w.parent[in] {
+		visited[in] = true
 		p := instrPos(in)
 		if !p.IsValid() {
 			continue
